@@ -78,7 +78,7 @@ func genStream(t *rapid.T, delim byte, allowBig bool) (stream []byte, lens []int
 			l = rapid.IntRange(0, 40).Draw(t, "len")
 		}
 		rec := make([]byte, l)
-		fill := rapid.SampledFrom([]string{"abc", "a\rb", "x" + string([]byte{other}) + "y", "é漢", " \t", "0123456789"}).Draw(t, "fill")
+		fill := rapid.SampledFrom([]string{"abc", "a\rb", "x" + string([]byte{other}) + "y", "é漢", " \t", "0123456789", "a\uFFFDb", "\uFFFD"}).Draw(t, "fill") // (U+FFFD itself is a valid character of the input)
 		for k := range rec {
 			rec[k] = fill[(k+i)%len(fill)]
 		}
